@@ -210,6 +210,9 @@ func main() {
 		}
 		for _, h := range u.newHelpers {
 			msg := fmt.Sprintf("calls %s, a function that is new since the baseline, has no contract and can not be inlined (loops): the unit can not be decided until it gets one", h)
+			if strings.HasPrefix(h, "package variable ") {
+				msg = fmt.Sprintf("reads %s, which is new since the baseline: nothing specifies what it holds, the unit can not be decided", h)
+			}
 			if _, dup := staleUnits[u.name]; !dup {
 				staleUnits[u.name] = msg
 				engineFailures = append(engineFailures, u.name+": "+msg)
@@ -253,7 +256,7 @@ func main() {
 					known[n] = true
 				}
 				for _, o := range obls {
-					if !known[o.Name] && !o.Cover {
+					if !known[o.Name] && !known[o.Name+"?absent"] && !o.Cover {
 						quickNames[o.Name] = true
 					}
 				}
@@ -274,7 +277,7 @@ func main() {
 		}
 		var again []*Obligation
 		for _, o := range obls {
-			if o.Result == nil || o.Cover || quickNames[o.Name] || !inLedger[o.Name] {
+			if o.Result == nil || o.Cover || quickNames[o.Name] || !(inLedger[o.Name] || inLedger[o.Name+"?absent"]) {
 				continue
 			}
 			if st := o.Result.Status; st == "timeout" || st == "unknown" || st == "error" {
@@ -322,13 +325,13 @@ func main() {
 						continue
 					}
 					seen[o.Name] = true
-					if inLedger[o.Name] && !quickNames[o.Name] && o.Result != nil && !o.ok() {
+					if (inLedger[o.Name] || inLedger[o.Name+"?absent"]) && !quickNames[o.Name] && o.Result != nil && !o.ok() {
 						n++
 					}
 				}
 			}
 			for name := range inLedger {
-				if strings.HasPrefix(name, root+"/") && !seen[name] && !isSafetyName(name) && !isFrameName(name) && !(vanishOK != "" && strings.Contains(name, vanishOK)) {
+				if strings.HasPrefix(name, root+"/") && !seen[name] && !strings.HasSuffix(name, "?absent") && !isSafetyName(name) && !isFrameName(name) && !(vanishOK != "" && strings.Contains(name, vanishOK)) {
 					n++
 				}
 			}
@@ -482,7 +485,7 @@ func main() {
 			}
 			continue
 		}
-		inLedger := ledger[n] || len(ledger) == 0
+		inLedger := ledger[n] || ledger[n+"?absent"] || len(ledger) == 0
 		if kf := isKnown(n); kf != nil {
 			if !l.OK {
 				fmt.Printf("KNOWN-FINDING: property=%s %s [%s]\n", prop, kf.What, n)
@@ -546,6 +549,9 @@ func main() {
 	// vanished obligations
 	var staleObls []string
 	for n := range ledger {
+		if strings.HasSuffix(n, "?absent") {
+			continue // marker of a clause without a site: its disappearance means the site exists now
+		}
 		if _, ok := byName[n]; !ok && onlyRe == nil {
 			stale := false
 			for un := range staleUnits {
@@ -851,7 +857,7 @@ func (e *Engine) lemmaUnit(prop string) (ru *Unit) {
 // isStaleContractMsg recognises engine errors that mean "the contract text does not fit the source any
 // more" (as opposed to unsupported code or an internal error).
 func isStaleContractMsg(m string) bool {
-	for _, k := range []string{"unknown name ", "unknown ghost variable $i", "is not defined in the old state", "in a spec expression", "unknown field", "no field or method", "has no field", "has no method", "has no loop", "has no literal", "no such label"} {
+	for _, k := range []string{"unknown name ", "unknown ghost variable $i", "is not defined in the old state", "in a spec expression", "unknown field", ": no field ", "no field or method", "has no field", "has no method", "has no loop", "has no literal", "no such label"} {
 		if strings.Contains(m, k) {
 			return true
 		}
